@@ -41,14 +41,21 @@ def check(run):
     run.touch(rn)
     cfg = rn.cfg
     polls = [c for c in rn.calls() if (c.get('callee') or '').endswith('io_context::poll') and q.render(rn, c.get('obj')) == 'm_service']
-    advs = [c for c in rn.calls() if q.callee_name(c) == FF]
+    # the advance may sit in run() itself or in a helper run() calls on the simulation (q.flat_calls): `own` is the
+    # function holding the call, `anchor` the statement of run() that stands for it
+    advf = q.flat_calls(rn, lambda g, c: q.callee_name(c) == FF)
     if not polls:
         run.broke('simulation::run: call of m_service.poll() not found (anchor vanished)')
-    for adv in advs:
-        ab = cfg.node_block(adv)
+    for x in advf:
+        adv, own = x.call, x.owner
+        run.touch(own)
+        ab = cfg.node_block(x.anchor)
         ok_dom = any(cfg.dominates(cfg.node_block(p), ab) for p in polls)
         cyc = ab in cfg.reach_from(ab, avoid={cfg.node_block(p) for p in polls})
-        run.check(ok_dom and not cyc, 'R4', 'poll-before-advance', 'sim::simulation::run', rn.loc(adv),
+        if own is not rn:
+            ob = own.cfg.node_block(adv)
+            cyc = cyc or ob in own.cfg.reach_from(ob)
+        run.check(ok_dom and not cyc, 'R4', 'poll-before-advance', 'sim::simulation::run', own.loc(adv),
                   'the clock advance is %s' % ('not dominated by the poll of the message queue' if not ok_dom else 'reachable from itself without passing the poll (two jumps without draining ready handlers)'),
                   'poll dominates the advance and lies on every cycle through it')
         # front-of-queue operand
@@ -58,23 +65,35 @@ def check(run):
             tgt = q.strip_casts(arg['args'][0])
         ok = False
         why = 'advance operand is not <timer>->expiry() - now'
-        if is_node(tgt) and tgt['k'] == 'call' and (tgt.get('callee') or '').endswith('high_resolution_timer::expiry'):
-            obj = q.strip_casts(tgt.get('obj'))
-            exprs = []
-            if is_node(obj) and obj['k'] == 'ref' and obj.get('dk') == 'local':
-                exprs = [q.render(rn, q.strip_casts(e)) for _, e in q.local_defs(rn, obj['did'])]
-            else:
-                exprs = [q.render(rn, obj)]
-            FRONT = ('*m_timer_queue.begin()', 'm_timer_queue.front()', 'm_timer_queue[0]')
-            ok = bool(exprs) and all(e in FRONT for e in exprs)
-            why = 'the timer whose expiry is the advance target is defined as %s, not the front of m_timer_queue' % exprs
-        run.check(ok, 'R4', 'advance-target', 'sim::simulation::run', rn.loc(adv), why, 'target is the front of the sorted timer queue')
+        FRONT = ('*m_timer_queue.begin()', 'm_timer_queue.front()', 'm_timer_queue[0]')
+
+        def front_expiry(e, depth=0):
+            """does e denote front-of-queue->expiry() (through single-definition locals)?  -> (bool, text)"""
+            e = q.strip_casts(e)
+            if not is_node(e) or depth > 3:
+                return False, q.render(own, e)
+            if e['k'] == 'ref' and e.get('dk') == 'local':
+                ds = q.local_defs(own, e['did'])
+                rs = [front_expiry(d, depth + 1) for _, d in ds]
+                return bool(rs) and all(r[0] for r in rs), ' / '.join(r[1] for r in rs)
+            if e['k'] == 'call' and (e.get('callee') or '').endswith('high_resolution_timer::expiry'):
+                obj = q.strip_casts(e.get('obj'))
+                if is_node(obj) and obj['k'] == 'ref' and obj.get('dk') == 'local':
+                    exprs = [q.render(own, q.strip_casts(d)) for _, d in q.local_defs(own, obj['did'])]
+                else:
+                    exprs = [q.render(own, obj)]
+                return bool(exprs) and all(t in FRONT for t in exprs), 'expiry of %s' % exprs
+            return False, q.render(own, e)
+        if tgt is not None:
+            ok, txt = front_expiry(tgt)
+            why = 'the advance target is %s, not the expiry of the front of m_timer_queue' % txt
+        run.check(ok, 'R4', 'advance-target', 'sim::simulation::run', own.loc(adv), why, 'target is the front of the sorted timer queue')
         # non-empty queue guard
-        guards = q.guards_at(rn, adv)
-        ne = any(q.render(rn, a) == 'm_timer_queue.empty()' and not p for a, p in guards)
-        run.check(ne, 'R4', 'advance-nonempty', 'sim::simulation::run', rn.loc(adv), 'the advance is not guarded by !m_timer_queue.empty()', 'guarded by !m_timer_queue.empty()')
-    if not advs:
-        run.broke('simulation::run no longer calls fast_forward (anchor vanished)')
+        guards = q.guards_at(own, adv)
+        ne = any(q.nonempty_test(own, a, p, 'm_timer_queue') for a, p in guards)
+        run.check(ne, 'R4', 'advance-nonempty', 'sim::simulation::run', own.loc(adv), 'the advance is not guarded by !m_timer_queue.empty()', 'guarded by !m_timer_queue.empty()')
+    if not advf:
+        run.broke('simulation::run no longer reaches fast_forward (anchor vanished)')
     # the loop condition
     loops = [n for n in rn.all_nodes() if n['k'] in ('do', 'while', 'for')]
     conds = [q.render(rn, l.get('cond')) for l in loops if l.get('cond')]
